@@ -125,6 +125,7 @@ const (
 	OpGC     = "gc"
 	OpReopen = "reopen"
 	OpFlush  = "flush"
+	OpRemap  = "remap" // reopen with a changed storage-class -> part-store mapping
 )
 
 // Op is one symbolic operation of a program. Buckets, keys, versions, uploads
@@ -183,7 +184,7 @@ type DelSpec struct {
 
 func (o Op) IsMutation() bool {
 	switch o.Kind {
-	case OpHead, OpGet, OpList, OpGC, OpReopen, OpFlush:
+	case OpHead, OpGet, OpList, OpGC, OpReopen, OpFlush, OpRemap:
 		return false
 	}
 	return true
@@ -201,6 +202,10 @@ type Concrete struct {
 	SrcCondETag       *string
 	WriteOffset       *int64
 	Entries           []ConcreteDel
+	// CompleteSums are the checksums a complete of the referenced upload would produce
+	// (from the model), used to build the caller-supplied checksum input of a complete.
+	CompleteSums map[string]string
+	CompleteETag string
 	// Hint is the outcome ("ok"/"fail") of the real side, consulted by the model only at don't-care points.
 	Hint string
 }
